@@ -56,6 +56,15 @@ class Beh(base.Behaviour):
                 self._raised = True
                 return [('raise_type',)]
             return []
+        if self.dh == 'kick_other':
+            # the handler of the first session that ends disconnects another live session
+            if not getattr(self, '_kicked', False) and self.other.get(sid):
+                self._kicked = True
+                return [('disconnect', self.other[sid])]
+            return []
+        if self.dh == 'send_stale':
+            # the handler sends to a session that ended earlier (its entry may still sit in the table)
+            return [('send', self.stale, 'to-a-dead-session')] if getattr(self, 'stale', None) else []
         if self.dh == 'raise':
             return [('raise', 'disconnect handler failure')]
         if self.dh == 'yield':
@@ -89,6 +98,7 @@ class Events(core.Scenario):
                                      async_handlers=False),
             behaviour=Beh(p['dh'], p.get('mh', 'record')), **extra)
         self.inj = []          # (cause, step, time)
+        self.api_calls = []
         self.ws = None
         if p.get('reject_first'):
             # the very first connection attempt this server sees is rejected by the application
@@ -108,6 +118,8 @@ class Events(core.Scenario):
             # another session ends first, and the application's handler fails on it
             extra_sid = peer.sid_of(peer.open_polling(w))
             peer.post(w, extra_sid, '1')
+            w.beh.stale = extra_sid
+        w.beh.other = {self.A: self.B, self.B: self.A}
         # a message before anything else: must be delivered, exactly once, before the disconnect
         if tr == 'polling':
             peer.post(w, self.A, '4hello')
@@ -125,9 +137,9 @@ class Events(core.Scenario):
                 elif name == 'frame_close':
                     ww.ws_send(sc.ws, '1')
                 elif name == 'api_disc':
-                    ww.call('disconnect', A)
+                    sc.api_calls.append((name, ww.call('disconnect', A)))
                 elif name == 'api_disc_all':
-                    ww.call('disconnect')
+                    sc.api_calls.append((name, ww.call('disconnect')))
                 elif name == 'post_bad':
                     peer.post(ww, A, '4ok\x1e7', run=False)
                 elif name == 'post_oversize':
@@ -226,7 +238,23 @@ class Events(core.Scenario):
         if A in w.table_sids():
             self.flag('cleanup_skipped', 'session still in the table at the horizon', trigger=trig)
         # bystander: unless disconnect() (all) was among the causes, it is alive and got its message
-        if 'api_disc_all' not in p['causes']:
+        evBd = [e for e in w.events if e[1] == B and e[0] == 'disconnect']
+        if 'api_disc_all' in p['causes'] or p['dh'] == 'kick_other':
+            # the bystander is ended too (by disconnect() or by the other session's handler): exactly one event, and
+            # - when nothing in the scenario waits for a timeout - at once and for the right reason
+            if len(evBd) != 1:
+                self.flag('disconnect_count', 'bystander: %d disconnect events (%r)' % (len(evBd), [e[2] for e in evBd]), trigger=trig)
+            elif self.horizon == 0.0 and p['causes'] in (['api_disc_all'], ['api_disc']) and \
+                    all(c.done and not c.exc for _, c in self.api_calls) and \
+                    (evBd[0][2] != 'server disconnect' or evBd[0][3] > 0.01):
+                # (a disconnect() that never returns is C15's subject; here: it returned, so it has ended every session)
+                self.flag('other_session_not_disconnected', 'disconnect call(s) returned, bystander was to be ended by the server at t=0; '
+                          'its disconnect event: %r' % (evBd[0][:4],), trigger=trig)
+        for name, c in self.api_calls:
+            if c.exc:
+                self.flag('disconnect_call_raised', '%s raised %s at %s - sessions it had not reached yet are left open'
+                          % ('disconnect()' if name == 'api_disc_all' else 'disconnect(sid)', c.exc['type'], c.exc.get('site')), trigger=trig)
+        if 'api_disc_all' not in p['causes'] and p['dh'] != 'kick_other':
             evB = [e for e in w.events if e[1] == B and e[0] == 'disconnect']
             early = [e for e in evB if e[3] < INTERVAL + TIMEOUT - 0.01]
             if early:
@@ -268,6 +296,10 @@ def param_list(ctx):
                     ps.append({'impl': impl, 'transport': tr, 'causes': cs, 'dh': 'raise', 'handlers': 'plain_functions'})
             for cs in ([causes[0]], ['api_disc'], ['silence']):
                 ps.append({'impl': impl, 'transport': tr, 'causes': cs, 'dh': 'raise_type_once', 'bystander_first': True})
+            # handlers that touch *another* session while this one is being closed
+            for cs in (['api_disc_all'], ['api_disc'], [causes[0]]):
+                ps.append({'impl': impl, 'transport': tr, 'causes': cs, 'dh': 'kick_other'})
+                ps.append({'impl': impl, 'transport': tr, 'causes': cs, 'dh': 'send_stale', 'bystander_first': True})
             ps.append({'impl': impl, 'transport': tr, 'causes': ['silence'], 'dh': 'record', 'reject_first': True})
             ps.append({'impl': impl, 'transport': tr, 'causes': [causes[0]], 'dh': 'record', 'reject_first': True})
             # a MESSAGE that may be delivered while the disconnect handler of another cause is suspended
